@@ -13,3 +13,19 @@ reg("C04",
     "Every assignment within the bound is expanded by the repository's own entry functions (both entry points) and the where-clause of every generated impl is compared, as a set of predicates, with the documented nine-level resolution (helper / per-trait / shared x type / variant / field; one slot per recognised comparison helper attribute at each placement; optional key placement). Exhaustive within the bound, never sampled.",
     "Bound: probe shapes enum X<T>{A(F1<T>,F2<T>),B(F3<T>)} / struct X<T>(F1<T>,F2<T>) with slots on the type, variant A and field A.0; quick: <=2 non-absent levels over 6 options + full 3-option products for 9 small configurations; thorough: <=3 non-absent levels + more full products. The textual form of default/Type bounds is calibrated on the implementation (semantic adequacy is C03's).",
     "DESIGN.md 5/C04")
+
+reg("C01",
+    "bounded exhaustive enumeration of type definitions x accepted helper-attribute placements x trait subsets x entry points, compiled with the real proc-macro and executed on ALL ordered pairs of the full value product, against a reference interpreter of the documented lexicographic rule",
+    "Each terminal state is a complete program compiled by real rustc against the repository's proc-macro dylib and executed; the ==, !=, partial_cmp and cmp results for every ordered pair of the enumerated value domain are compared with ref_eq/ref_partial_cmp/ref_cmp (documented precedence with distinguishable key/by functions per attribute, incl. a NaN-like partial key). Exhaustive within the bound, never sampled.",
+    "Bound: M1 single configured field over all accepted combinations of the 784 (ord,partial_ord,eq,partial_eq) alphabet in 3 (quick) / 16 (thorough) container x context positions; M2 15 trait subsets x 2 entry points; M3 up to 3/4 fields over a 6/8-letter alphabet, 4 shapes, generic and partially ordered field types; value domains 6 (configured) / 2-4 (others).",
+    "DESIGN.md 5/C01")
+reg("C02",
+    "bounded exhaustive enumeration of the 3136 per-field attribute combinations (one consistent key) x supertrait-closed trait subsets x containers, every combination the real expander accepts compiled and executed, model-free coherence laws checked on ALL pairs and triples of the value domain",
+    "Every combination accepted by the repository's expander is compiled with the real proc-macro and executed; == / != / partial_cmp / cmp tables and recorded hash feeds over the complete 12-15 value domain are checked against the Eq/Ord/Hash coherence laws (pairs, triples for transitivity). Exhaustive within the alphabet, never sampled.",
+    "Bound: one configured field (first of 2 in a tuple struct / last of 2 in an enum variant) + plain neighbours; quick: full alphabet on the all-five struct slice, {-,ignore,key,by} alphabet on the 10 other subsets and the enum container; thorough: full alphabet everywhere, both entry points on the all-five slice.",
+    "DESIGN.md 5/C02")
+reg("C06",
+    "bounded exhaustive enumeration of (hash, eq, ord) attribute combinations x trait sets x containers x entry points and multi-field shapes, compiled with the real proc-macro and executed on EVERY value with a recording Hasher, against reference feeds",
+    "Each terminal state is compiled by real rustc against the repository's proc-macro and executed; the recorded write_* sequence for every value of the enumerated domain must equal the concatenation of the reference-selected effective inputs, and for all same-variant pairs feeds are equal iff the reference effective-input vectors are equal. Exhaustive within the bound, never sampled.",
+    "Bound: 112 combinations x 4 trait sets x 3 (quick) / 16 (thorough) container positions x 2 entry points; multi-field shapes with 1..3/4 fields over a 7-letter alphabet; I4 (no discriminant in the feed).",
+    "DESIGN.md 5/C06")
